@@ -6,42 +6,42 @@ Open Scope string_scope.
 Definition one (n : string) := filter (fun fd => String.eqb (fn_name fd) n) eon_program.
 Eval vm_compute in (report eon_program (one "Gillespie_SIR")).
 Eval vm_compute in (dead_report eon_program (one "Gillespie_SIR")).
-Eval vm_compute in (report eon_program (one "Gillespie_SIS")).
-Eval vm_compute in (dead_report eon_program (one "Gillespie_SIS")).
+Eval vm_compute in (report eon_program (one "discrete_SIR")).
+Eval vm_compute in (dead_report eon_program (one "discrete_SIR")).
 Eval vm_compute in (report eon_program (one "Gillespie_complex_contagion")).
 Eval vm_compute in (dead_report eon_program (one "Gillespie_complex_contagion")).
-Eval vm_compute in (report eon_program (one "_transform_to_node_history_")).
-Eval vm_compute in (dead_report eon_program (one "_transform_to_node_history_")).
-Eval vm_compute in (report eon_program (one "EBCM_discrete_from_graph")).
-Eval vm_compute in (dead_report eon_program (one "EBCM_discrete_from_graph")).
-Eval vm_compute in (report eon_program (one "_SIR_pair_based_initialize_edge_data")).
-Eval vm_compute in (dead_report eon_program (one "_SIR_pair_based_initialize_edge_data")).
-Eval vm_compute in (report eon_program (one "Attack_rate_cts_time")).
-Eval vm_compute in (dead_report eon_program (one "Attack_rate_cts_time")).
+Eval vm_compute in (report eon_program (one "SIR_compact_effective_degree_from_graph")).
+Eval vm_compute in (dead_report eon_program (one "SIR_compact_effective_degree_from_graph")).
+Eval vm_compute in (report eon_program (one "_dSIR_heterogeneous_pairwise_")).
+Eval vm_compute in (dead_report eon_program (one "_dSIR_heterogeneous_pairwise_")).
+Eval vm_compute in (report eon_program (one "EBCM_pref_mix")).
+Eval vm_compute in (dead_report eon_program (one "EBCM_pref_mix")).
+Eval vm_compute in (report eon_program (one "SIR_homogeneous_pairwise_from_graph")).
+Eval vm_compute in (dead_report eon_program (one "SIR_homogeneous_pairwise_from_graph")).
 Eval vm_compute in (report eon_program (one "_process_trans_SIR_")).
 Eval vm_compute in (dead_report eon_program (one "_process_trans_SIR_")).
-Eval vm_compute in (report eon_program (one "_find_next_trans_SIS_Markov")).
-Eval vm_compute in (dead_report eon_program (one "_find_next_trans_SIS_Markov")).
-Eval vm_compute in (report eon_program (one "SIR_heterogeneous_pairwise_from_graph")).
-Eval vm_compute in (dead_report eon_program (one "SIR_heterogeneous_pairwise_from_graph")).
-Eval vm_compute in (report eon_program (one "SIS_homogeneous_pairwise")).
-Eval vm_compute in (dead_report eon_program (one "SIS_homogeneous_pairwise")).
+Eval vm_compute in (report eon_program (one "SIS_compact_pairwise")).
+Eval vm_compute in (dead_report eon_program (one "SIS_compact_pairwise")).
+Eval vm_compute in (report eon_program (one "_dSIR_individual_based_")).
+Eval vm_compute in (dead_report eon_program (one "_dSIR_individual_based_")).
+Eval vm_compute in (report eon_program (one "_dSIR_compact_effective_degree_")).
+Eval vm_compute in (dead_report eon_program (one "_dSIR_compact_effective_degree_")).
 Eval vm_compute in (report eon_program (one "SIR_super_compact_pairwise")).
 Eval vm_compute in (dead_report eon_program (one "SIR_super_compact_pairwise")).
-Eval vm_compute in (report eon_program (one "SIR_pair_based_pure_IC")).
-Eval vm_compute in (dead_report eon_program (one "SIR_pair_based_pure_IC")).
 Eval vm_compute in (report eon_program (one "get_infected_nodes")).
 Eval vm_compute in (dead_report eon_program (one "get_infected_nodes")).
+Eval vm_compute in (report eon_program (one "_dSIS_heterogeneous_meanfield_")).
+Eval vm_compute in (dead_report eon_program (one "_dSIS_heterogeneous_meanfield_")).
 Eval vm_compute in (report eon_program (one "SIS_homogeneous_meanfield")).
 Eval vm_compute in (dead_report eon_program (one "SIS_homogeneous_meanfield")).
-Eval vm_compute in (report eon_program (one "SIR_homogeneous_meanfield_from_graph")).
-Eval vm_compute in (dead_report eon_program (one "SIR_homogeneous_meanfield_from_graph")).
-Eval vm_compute in (report eon_program (one "get_PGF")).
-Eval vm_compute in (dead_report eon_program (one "get_PGF")).
-Eval vm_compute in (report eon_program (one "SIR_heterogeneous_meanfield_from_graph")).
-Eval vm_compute in (dead_report eon_program (one "SIR_heterogeneous_meanfield_from_graph")).
-Eval vm_compute in (report eon_program (one "_find_trans_and_rec_delays_SIS_")).
-Eval vm_compute in (dead_report eon_program (one "_find_trans_and_rec_delays_SIS_")).
+Eval vm_compute in (report eon_program (one "_dSIR_homogeneous_meanfield_")).
+Eval vm_compute in (dead_report eon_program (one "_dSIR_homogeneous_meanfield_")).
+Eval vm_compute in (report eon_program (one "_dSIS_homogeneous_meanfield_")).
+Eval vm_compute in (dead_report eon_program (one "_dSIS_homogeneous_meanfield_")).
+Eval vm_compute in (report eon_program (one "SIS_homogeneous_meanfield_from_graph")).
+Eval vm_compute in (dead_report eon_program (one "SIS_homogeneous_meanfield_from_graph")).
+Eval vm_compute in (report eon_program (one "_find_trans_and_rec_delays_SIR_")).
+Eval vm_compute in (dead_report eon_program (one "_find_trans_and_rec_delays_SIR_")).
 Eval vm_compute in (report eon_program (one "_process_rec_SIR_")).
 Eval vm_compute in (dead_report eon_program (one "_process_rec_SIR_")).
 Eval vm_compute in (report eon_program (one "basic_discrete_SIR")).
